@@ -296,12 +296,13 @@ Section Forward.
     | AS_Err => False
     end.
   Proof.
-    induction fuel as [| f IH]; intros st I; simpl; [exact Logic.I |].
-    destruct (as_pq_get (as_frontier st)) as [[[p cur] rest] |] eqn:Hget; [| exact Logic.I].
-    destruct (as_pq_get_some _ _ _ Hget) as [Hin Hrest].
-    pose proof (si_frontier st I p cur Hin) as Hcur.
-    destruct (Nat.eqb_spec cur goal) as [-> | Hcg].
-    - split; [now apply as_st_inv_cf | now apply (si_keys st I)].
+    induction fuel as [| f IH]; intros st I; simpl;
+      (destruct (as_pq_get (as_frontier st)) as [[[p cur] rest] |] eqn:Hget; [| exact Logic.I]);
+      destruct (as_pq_get_some _ _ _ Hget) as [Hin Hrest];
+      pose proof (si_frontier st I p cur Hin) as Hcur;
+      (destruct (Nat.eqb_spec cur goal) as [-> | Hcg];
+       [split; [now apply as_st_inv_cf | now apply (si_keys st I)] |]).
+    - exact Logic.I.
     - set (st1 := mkAS rest (as_came st) (as_cost st) (as_pop_margin (as_margin st) p rest)).
       assert (I1 : as_st_inv st1).
       { destruct I; constructor; simpl; auto. intros p' c' H'. eapply si_frontier0. apply Hrest. exact H'. }
@@ -357,23 +358,6 @@ Proof.
 Qed.
 
 (* ------------------------------------------------------------------ concrete instances *)
-Lemma as_budget_refuted :
-  exists (adj : nat -> list (nat * nat)) (h : nat -> nat -> Z) (n_edges : nat),
-    adj = (fun n => match n with 0 => [(1, 0)] | 1 => [(0, 0); (2, 1)] | 2 => [(1, 1)] | _ => [] end)%nat /\
-    n_edges = 2%nat /\
-    (forall a b e, In (b, e) (adj a) -> (0 <= h a b)%Z /\ (a <> b -> (0 < h a b)%Z)) /\
-    (exists m, as_path adj h 0 2 false n_edges = AS_PathFindingError m) /\
-    (exists m, as_path adj h 0 2 false (S n_edges) = AS_Path [2; 1; 0]%nat [1; 0]%nat m) /\
-    (exists m, as_path adj h 0 2 true n_edges = AS_Path [2; 1; 0]%nat [1; 0]%nat m).
-Proof.
-  exists (fun n => match n with 0 => [(1, 0)] | 1 => [(0, 0); (2, 1)] | 2 => [(1, 1)] | _ => [] end)%nat,
-         (fun a b : nat => Z.abs (Z.of_nat a - Z.of_nat b)), 2%nat.
-  split; [reflexivity |]. split; [reflexivity |]. split.
-  - intros a b e Hin. split; [lia |]. intros Hab.
-    destruct a as [| [| [| a]]]; simpl in Hin; intuition; inversion H; subst; simpl; lia.
-  - split; [| split]; eexists; vm_compute; reflexivity.
-Qed.
-
 Lemma as_path_example :
   let adj := (fun n => match n with
                        | 0 => [(1, 0); (2, 2)] | 1 => [(0, 0); (2, 1); (3, 3)]
@@ -390,9 +374,9 @@ Qed.
 (* start = goal: the first pop is the goal, the backward pass does not iterate:
    the result is ([start], []) for every positive budget, both stopping modes *)
 Lemma as_path_start_eq_goal :
-  forall adj h s early n, as_path adj h s s early (S n) = AS_Path [s] [] None.
+  forall adj h s early n, as_path adj h s s early n = AS_Path [s] [] None.
 Proof.
-  intros. unfold as_path, as_forward, as_init. simpl.
-  unfold as_entry_eqb. simpl. rewrite !Nat.eqb_refl. simpl.
-  unfold as_backward. simpl. rewrite Nat.eqb_refl. reflexivity.
+  intros. unfold as_path, as_forward, as_init. destruct n; simpl;
+  unfold as_entry_eqb; simpl; rewrite !Nat.eqb_refl; simpl;
+  unfold as_backward; simpl; rewrite Nat.eqb_refl; reflexivity.
 Qed.
